@@ -175,6 +175,21 @@ def run(ctx: Ctx) -> None:
         good = len(binds) == 1 and isinstance(binds[0].stmt.value, ast.Name) and binds[0].stmt.value.id in (nsv, parent_var) and not scfg.paths_avoiding(scfg.entry, scfg.exit, lambda x: x is binds[0])
         ctx.ob("R12.4", "simple:SimpleCxxVisitor.on_namespace_start|state bound to the innermost scope", good, msg="state.user_data is not the innermost found-or-created scope on every path", node=fn, mod=sm)
 
+    # the scope a block is bound to is a function of the parent block's scope and the block's own names: a start callback
+    # that consults anything kept on the visitor (a cache of scopes, a shared anonymous scope) makes the result depend on
+    # what was parsed before, elsewhere
+    vis = sm.cls("SimpleCxxVisitor")
+    vmeths = {f.name for f in vis.body if isinstance(f, ast.FunctionDef)}
+    for f in vis.body:
+        if not (isinstance(f, ast.FunctionDef) and f.name.startswith("on_") and f.name.endswith("_start") and f.name != "on_parse_start"):
+            continue
+        binds_ = [x for x in ast.walk(f) if isinstance(x, ast.Attribute) and x.attr == "user_data" and isinstance(x.ctx, ast.Store)]
+        if not binds_:
+            continue
+        reads = sorted({x.attr for x in ast.walk(f) if isinstance(x, ast.Attribute) and isinstance(x.value, ast.Name) and x.value.id == "self" and isinstance(x.ctx, ast.Load) and x.attr not in vmeths})
+        ctx.ob("R12.4", f"simple:SimpleCxxVisitor.{f.name}|scope depends on the parent state only", not reads,
+               msg=f"{f.name} reads visitor-level state ({', '.join('self.' + r for r in reads)}) while deciding which scope the block belongs to: the same block is filed differently depending on what was seen earlier, in other scopes", node=f, mod=sm)
+
     # ---------------------------------------------------------------- R12.5
     ctx.rule("R12.5", "extern blocks are transparent: the block's scope is the parent state's scope (alias, no copy)", minimum=1)
     ef = sm.func("SimpleCxxVisitor.on_extern_block_start")
